@@ -3618,3 +3618,60 @@ _override("F25-C17-populated-folder-reinitialised", [(DB, """                if 
                 log::warn!("version marker missing");
             }
 """)])
+
+# ---- mutation-sweep survivors that break a property (tools/mutation_sweep.py; triaged by reading)
+B("SW-C09-empty-batch-syncall-not-a-barrier", "C09", "C09:R-C09.8:batch::WriteBatch::commit", BATCH,
+  "if let Some(mode @ (crate::PersistMode::SyncData | crate::PersistMode::SyncAll)) =", "if let Some(mode @ (crate::PersistMode::SyncData | crate::PersistMode::SyncData)) =")
+B("SW-C09-empty-tx-syncall-not-a-barrier", "C09", "C09:R-C09.8:tx::write_tx::BaseTransaction::commit", "src/tx/write_tx.rs",
+  "if let Some(mode @ (PersistMode::SyncData | PersistMode::SyncAll)) = self.durability {", "if let Some(mode @ (PersistMode::SyncData | PersistMode::SyncData)) = self.durability {")
+B("SW-C14-batch-backpressure-under-keyspaces-lock", "C14", "C14:R-C14.3:batch::WriteBatch::commit:nothing-waits-under-the-keyspaces-lock", BATCH,
+  "        drop(keyspaces);\n", "")
+B("SW-C17-journals-only-count-with-keyspaces-folder", "C17", "C17:R-C17.6:db::Database::holds_database_files", DB,
+  "            if is_journal || name == KEYSPACES_FOLDER || name == LOCK_FILE {", "            if is_journal && name == KEYSPACES_FOLDER || name == LOCK_FILE {")
+B("SW-C17-everything-but-keyspaces-counts", "C17", "C17:R-C17.6:db::Database::holds_database_files", DB,
+  "            if is_journal || name == KEYSPACES_FOLDER || name == LOCK_FILE {", "            if is_journal || name != KEYSPACES_FOLDER || name == LOCK_FILE {")
+B("SW-C11-restore-only-when-journal-was-created", "C11", "C11:R-C11.1:db::Database::recover:restores-run-on-a-normal-reopen", DB,
+  "            if !journal_recovery.was_active_created {", "            if journal_recovery.was_active_created {")
+B("SW-C02-manual-journal-persist-by-default", "C02", "C02:R-C02.9:db_config::Config::new:config-default-manual_journal_persist", "src/db_config.rs",
+  "            manual_journal_persist: false,", "            manual_journal_persist: true,")
+B("SW-C02-clean-path-on-drop-by-default", "C02", "C02:R-C02.9:db_config::Config::new:config-default-clean_path_on_drop", "src/db_config.rs",
+  "            clean_path_on_drop: false,", "            clean_path_on_drop: true,")
+B("SW-C14-worker-exits-when-no-flush-task", "C14", "C14:R-C14.9:worker_pool::worker_tick", WP,
+  """            let Some(task) = ctx.supervisor.flush_manager.dequeue() else {
+                return Ok(false);
+            };""", """            let Some(task) = ctx.supervisor.flush_manager.dequeue() else {
+                return Ok(true);
+            };""")
+B("SW-C14-worker-exits-after-any-message", "C14", "C14:R-C14.9:worker_pool::worker_tick", WP,
+  """            run_compaction(&keyspace, &ctx.supervisor.snapshot_tracker, &ctx.stats)?;
+        }
+    }
+
+    Ok(false)""", """            run_compaction(&keyspace, &ctx.supervisor.snapshot_tracker, &ctx.stats)?;
+        }
+    }
+
+    Ok(true)""")
+B("SW-C14-every-worker-bounces-compactions", "C14", "C14:R-C14.10:worker_pool::worker_tick", WP,
+  "            if ctx.pool_size > 1 && ctx.worker_id == 0 {", "            if ctx.pool_size > 1 || ctx.worker_id == 0 {")
+B("SW-C14-single-worker-bounces-its-compactions", "C14", "C14:R-C14.10:worker_pool::worker_tick", WP,
+  "            if ctx.pool_size > 1 && ctx.worker_id == 0 {", "            if ctx.pool_size >= 1 && ctx.worker_id == 0 {")
+E("EQ-compaction-bounce-nested-ifs", WP, """            if ctx.pool_size > 1 && ctx.worker_id == 0 {
+                ctx.sender.send(WorkerMessage::Compact(keyspace)).ok();
+                return Ok(false);
+            }
+""", """            if ctx.pool_size > 1 {
+                if ctx.worker_id == 0 {
+                    ctx.sender.send(WorkerMessage::Compact(keyspace)).ok();
+                    return Ok(false);
+                }
+            }
+""", props=["C14", "C17", "C13"])
+B("SW-C17-journal-manager-clear-is-a-noop", "C17", "C17:R-C17.4:journal::manager::JournalManager::clear", "src/journal/manager.rs",
+  "        self.items.clear();", "        let _ = &self.items;")
+B("SW-C03-write-batch-shortcut-inverted", "C03", "C03:R-C03.1:journal::writer::Writer::write_batch:unframed-return", "src/journal/writer.rs",
+  "        if batch_size == 0 {\n            return Ok(0);", "        if batch_size != 0 {\n            return Ok(0);")
+B("SW-C16-config-key-without-keyspace-id", "C16", "C16:R-C16.8:meta_keyspace::encode_config_key", "src/meta_keyspace.rs",
+  "        writer.write_u64::<BE>(keyspace_id).unwrap();", "        writer.write_u64::<BE>(0).unwrap();")
+B("SW-C16-config-key-without-option-name", "C16", "C16:R-C16.8:meta_keyspace::encode_config_key", "src/meta_keyspace.rs",
+  "        writer.write_all(name.as_bytes()).unwrap();", "        writer.write_all(&vec![0u8; name.len()]).unwrap();")
